@@ -393,6 +393,11 @@ class InverseMatcher(WrappingMatcher):
 
             break
 
+        # The child may have been exhausted inside the loop above, leaving
+        # this matcher on a missing (deleted) document
+        while self._id < self.limit and missing(self._id):
+            self._id += 1
+
     def id(self):
         return self._id
 
